@@ -9,7 +9,7 @@ vars == <<ph, ty, val, mode>>
 Init == ph = "ty" /\ ty = "u8" /\ val = [k |-> "unit"] /\ mode = "ref"
 Next == \/ ph = "ty" /\ ty' \in SharedNames /\ ph' = "val" /\ UNCHANGED <<val, mode>>
         \/ ph = "val" /\ val' \in ValsOf(TypeTable[ty]) /\ ph' = "mode" /\ UNCHANGED <<ty, mode>>
-        \/ ph = "mode" /\ mode' \in {"ref", "wide", "indef"} /\ ph' = "done" /\ UNCHANGED <<ty, val>>
+        \/ ph = "mode" /\ mode' \in {"ref", "wide", "indef", "allindef"} /\ ph' = "done" /\ UNCHANGED <<ty, val>>
 D == TypeTable[ty]
 Emit == (ph' = "done") =>
    LET b == SerEncM(Embed(D), val, mode')  r == EncV(D, val) IN
